@@ -2,6 +2,7 @@ import PncModel.Camx.Uamiv
 import PncModel.Camx.Slab
 import PncModel.Camx.Landuse
 import PncModel.Camx.SlabRead
+import PncModel.Camx.CloudRainRead
 /- line protocol for the binary-format models -/
 namespace Camx
 open Words Wire
@@ -101,6 +102,8 @@ def runBin : List String → String
   | "cr-enc" :: toks => Slab.runCR toks
   | "wind-enc" :: toks => Slab.runWind toks
   | "bnd-enc" :: toks => Slab.runBnd toks
+  | "wind-read" :: toks => Wind.runRead toks
+  | "cr-read" :: toks => CloudRain.runRead toks
   | "slab-rd" :: toks => SlabRead.run ("slab-rd" :: toks)
   | "lu-enc" :: toks => Landuse.run ("lu-enc" :: toks)
   | "lu-read" :: toks => Landuse.run ("lu-read" :: toks)
